@@ -9,6 +9,7 @@ import Tickit.Proof.LifeTopSw
 import Tickit.Proof.LifeTop
 import Tickit.Proof.LifeTopEnd
 import Tickit.Proof.LifeFrames
+import Tickit.Proof.LifeOut
 import Tickit.Gen.Life
 /-
   Property C08 — no API history touches freed or foreign memory, and everything is released.
@@ -452,6 +453,48 @@ theorem all_released_handlers_keeping (lines cols : Int) (mock : Bool) (ops : Li
   simp only [hd, bind_ok, pure_ok]
   rfl
 
+/-- **the drag source is a window of the tree**: `root->drag_source_window` is an uncounted pointer; after every history
+    with key and mouse events (press, drag, release; handlers that close, hide, restack or take references to their own
+    window, a window above it or any other window, claiming the event or not) the window it names is alive and its parent
+    chain reaches the root window.  `on_term_mouse` keeps the window that took DRAG_START only if the walk up its parents
+    arrives at the root window (`dragSourceSet` / `reachesTop`: a handler that closed a window *above* the source has cut
+    that walk short although the source itself is not closed), and `tickit_window_close` forgets a drag source that lies in
+    the subtree it unlinks - so the pointer never outlives the window, and DRAG_OUTSIDE / DRAG_STOP are never sent to
+    freed memory. -/
+theorem drag_source_linked (lines cols : Int) (mock : Bool) (ops : List Op) (h : EventHistory ops) :
+    ∃ st, runOps extracted {} (.newTerm lines cols mock :: ops) = .ok st ∧
+      ∀ s, st.tree.root.dragSource = some s → ∃ w, LiveW st.tree s w ∧ Reach st.tree s 0 := by
+  obtain ⟨st1, hr, inv1, _⟩ := no_ub_handlers_keeping ops _ (SInv.init lines cols rfl rfl) (keepingHandlers_init lines cols) h
+  refine ⟨st1, ?_, inv1.tinv.drag_ok⟩
+  unfold runOps step
+  exact hr
+
+/-- Non-vacuity, and the history of the corpus probe `drag_source_ancestor_closed`: root > panel > handle; the handle's
+    handler, bound after the press, closes the panel when DRAG_START arrives and claims it: the handle does not become
+    the drag source (it is no longer below the root window), the panel is dropped with the handle, the drag goes on. -/
+example : EventHistory [.win 0 ⟨2, 2, 6, 12⟩ 0, .win 1 ⟨1, 1, 3, 8⟩ 0, .mouse ⟨1, 1, 4, 5⟩, .bind 2 .mouse true [.close 1],
+    .mouse ⟨2, 1, 4, 6⟩, .act (.unref 1), .mouse ⟨2, 1, 5, 7⟩, .mouse ⟨3, 1, 8, 15⟩] := by
+  intro op hop
+  simp at hop
+  rcases hop with rfl | rfl | rfl | rfl | rfl | rfl | rfl | rfl <;> simp [Op.plain, Op.penEvent, Act.keeps]
+
+example : (match runOps extracted {} [.newTerm 10 20 false, .win 0 ⟨2, 2, 6, 12⟩ 0, .win 1 ⟨1, 1, 3, 8⟩ 0, .mouse ⟨1, 1, 4, 5⟩,
+    .bind 2 .mouse true [.close 1], .mouse ⟨2, 1, 4, 6⟩] with
+    | .ok st => (st.tree.root.dragSource, st.tree.root.mouseDragging) | _ => (some 99, false)) = (none, true) := by decide +kernel
+
+example : (runOps extracted {} [.newTerm 10 20 false, .win 0 ⟨2, 2, 6, 12⟩ 0, .win 1 ⟨1, 1, 3, 8⟩ 0, .mouse ⟨1, 1, 4, 5⟩,
+    .bind 2 .mouse true [.close 1], .mouse ⟨2, 1, 4, 6⟩, .act (.unref 1), .mouse ⟨2, 1, 5, 7⟩, .mouse ⟨3, 1, 8, 15⟩, .«end»]).isOk = true := by
+  decide +kernel
+
+/-- Known finding `cascade_steals_drag_frame` (the second reference outside the stack discipline, see above): the drag
+    source has claimed DRAG_START; its later, non-claiming handler drops the source and then its parent when
+    `on_term_mouse` sends it DRAG_OUTSIDE straight away - nobody holds the parent, which dies and takes the reference
+    `_handle_mouse` holds on the source.  The model of the current tree reproduces it. -/
+theorem drag_frame_counterexample :
+    (runOps extracted {} [.newTerm 10 20 false, .win 0 ⟨0, 0, 5, 10⟩ 0, .win 1 ⟨0, 0, 2, 2⟩ 0, .bind 2 .mouse true [],
+      .mouse ⟨1, 1, 0, 0⟩, .mouse ⟨2, 1, 0, 1⟩, .unbind 2 1, .bind 2 .mouse false [.unref 2, .unref 1], .mouse ⟨2, 1, 8, 15⟩]).isOk = false := by
+  decide +kernel
+
 /-- Key handlers with any actions (`no_ub_key_handlers_unref`): once the application has dropped every reference nothing
     is left. -/
 theorem all_released_key_handlers_unref (lines cols : Int) (mock : Bool) (ops : List Op)
@@ -720,5 +763,148 @@ example : TopHistory [.base (.act (.ref 0)), .base .tref, .ilater [.win (.unref 
 
 example : (xrunOps extractedTop {} [.newtop 6 12, .base (.act (.ref 0)), .base .tref, .ilater [.win (.unref 0)], .itimer 5 [.tunref],
     .tick 10, .itick [.chr], .iref, .iunref, .iunref]).isOk = true := by decide +kernel
+
+/-! ## timers and deferred calls registered from callbacks
+
+  A watch (and a handler bound on the terminal) may call `tickit_watch_timer_at_tv` and `tickit_watch_later` while it
+  runs (`TAct.timerAt`, `TAct.later`): `TopHistory` covers watches and handlers with such actions, so `top_no_ub`,
+  `top_lifetime_inv` and `top_all_released` speak about them - in particular a timer a timer callback registers for an
+  instant that has passed: it stands in front of the queue the loop of `tickit_evloop_invoke_timers` is working on
+  (`insertTimer`), the loop finds it there because it has unlinked the running timer *before* invoking it, and whatever
+  is still queued when the instance goes is released with it (`instDestroy`). -/
+
+/-- **the timer loop comes to an end, and leaves nothing that is due**: from a state satisfying the invariant (the
+    instance alive), the loop of `tickit_evloop_invoke_timers` - which looks at the head of the queue again after every
+    callback - runs to its end within the bound `Top.pot` (the timers that are due plus the registrations the harness's
+    table still takes: every turn unlinks a due timer, what its callback registers uses up a registration), touches
+    nothing that is freed, keeps the invariant, and when it ends the head of the queue is not due: a timer registered
+    by a callback for an instant that has passed has been run by the same call, not skipped and not lost. -/
+theorem timer_loop_runs_what_is_due {gh : Ghost} (hg : 1 ≤ gh.term) {top : Top} (F : FInv gh top)
+    (hlive : ∀ i, top.inst = some i → i.freed = false) :
+    ∃ top', invokeTimers extracted (top.pot + 1) top = .ok top' ∧ FInv gh top' ∧ Rest top top' ∧
+      ∀ e rest, (top'.inst.getD {}).timers = e :: rest → e.1 > top'.now := by
+  obtain ⟨top', h, F', R'⟩ := invokeTimers_ok extracted_repaired hg (top.pot + 1) F hlive (Nat.lt_succ_self _)
+  exact ⟨top', h, F', R', invokeTimers_head extracted _ top top' h⟩
+
+/-- `tickit_watch_timer_at_tv` keeps every entry of the queue and adds exactly the new one (whatever its instant). -/
+theorem timer_insert_keeps (l : List (Int × WItem)) (at_ : Int) (w : WItem) (q : Int × WItem → Bool) :
+    ((insertTimer l at_ w).filter q).length = (l.filter q).length + (if q (at_, w) = true then 1 else 0) :=
+  filter_insertTimer_length l at_ w q
+
+/-- Non-vacuity: a timer whose callback registers a timer for the instant 0 of the harness's clock (long past), one for the
+    present and a deferred call, a deferred call that registers a past timer, a key handler on the terminal that does
+    the same; `tickit_tick` twice; the instance dropped.  The history is covered, runs, fires the watches registered from
+    callbacks in the same `tickit_tick` (log: M0 then M1 - the past one, which stands first - then M2), and ends with
+    nothing left. -/
+example : TopHistory [.base (.act (.ref 0)), .tbind .key false [.timerAt 0, .later], .itimer 0 [.timerAt 0, .timerAt 5, .later],
+    .ilater [.timerAt 0], .tick 5, .itick [], .itick [.chr], .itimerat 0 [.tunref], .iunref] := by
+  intro op hop; simp at hop
+  rcases hop with rfl | rfl | rfl | rfl | rfl | rfl | rfl | rfl | rfl <;>
+    first | trivial | exact .inl ⟨.inl rfl, rfl, fun _ _ _ _ h => by cases h⟩
+
+example : (match xrunOps extractedTop {} [.newtop 6 12, .itimer 0 [.timerAt 0, .timerAt 5, .later], .tick 5] with
+    | .ok t => (match xstep extractedTop t (.itick []) with
+      | .ok (t', _) => (t'.st.log, (t'.inst.getD {}).timers.length, (t'.inst.getD {}).laters.length)
+      | _ => ([], 99, 99))
+    | _ => ([], 99, 99)) = (["M0", "M1", "M2"], 0, 1) := by decide +kernel
+
+example : (match xrunOps extractedTop {} [.newtop 6 12, .base (.act (.ref 0)), .tbind .key false [.timerAt 0, .later],
+    .itimer 0 [.timerAt 0, .timerAt 5, .later], .ilater [.timerAt 0], .tick 5, .itick [], .itick [.chr], .itimerat 0 [.tunref],
+    .base .«end»] with
+    | .ok t => (t.anythingLeft, t.fail) | _ => (true, none)) = (false, none) := by decide +kernel
+
+/-! ## the output side of the main terminal (`Model/LifeOut.lean`): output buffer, printing, `tickit_term_setpen` through
+  the xterm driver
+
+  `OInv` (Proof/LifeOut.lean) = `TopInv` of the layers below together with `TermBuf.WF` of the output buffer (engine
+  `termbuf`'s well-formedness: nothing pending without a buffer, fewer bytes pending than the buffer holds). -/
+
+/-- The array `int params[N]` of the xterm driver's `chpen`, as the source tree declares it, has room for the 19 SGR
+    parameters a pen can need (5 for each of two RGB8 colours, 2 for a styled underline, 7 single attributes). -/
+theorem chpen_params_room : 19 ≤ Gen.Sgr.paramsCap := by decide
+
+/-- A history of the output layer: what `TopHistory` covers below, and any of `tickit_term_set_output_buffer` (any
+    length, at any moment: with output pending, smaller than what is pending, 0), `tickit_term_printn` of any non-empty
+    text, `tickit_term_goto`, `tickit_term_flush`, the capability report (DECRQSS reply / `xterm.cap_rgb8`),
+    `tickit_term_setpen` / `tickit_term_chpen` with any pen. -/
+def OutHistory (ops : List YOp) : Prop := ∀ op ∈ ops, op.covered
+
+/-- **no_ub for the output side**: from any state satisfying the invariant, every history of covered operations in any
+    order runs to the end and the invariant holds again: no `memcpy` of `write_str` leaves the output buffer (the model
+    makes a fill level above the buffer's length an explicit failure, `TermBuf.writeLoop`), whatever length
+    `tickit_term_set_output_buffer` is given while output is pending, and the xterm driver's `chpen` never writes past
+    its array `params[]`, whatever the pen and the capabilities. -/
+theorem out_no_ub (ops : List YOp) (o : OTop) (I : OInv o) (h : OutHistory ops) :
+    ∃ o', yrunOps extractedTop o ops = .ok o' ∧ OInv o' :=
+  yrun_ok extractedTop_trepaired chpen_params_room ops o I h
+
+theorem out_no_ub_from_start (start : XOp) (hstart : start.isNew = true) (ops : List YOp) (h : OutHistory ops) :
+    ∃ o', yrunOps extractedTop {} (.x start :: ops) = .ok o' ∧ OInv o' :=
+  yrun_from_start extractedTop_trepaired chpen_params_room start hstart ops h
+
+/-- **the pending output lies inside the buffer**, spelled out on the state reached by any history from the start:
+    without a buffer nothing is pending, with a buffer of `n` bytes fewer than `n` bytes are - in particular after
+    `tickit_term_set_output_buffer` has replaced a buffer that held pending output by a smaller one. -/
+theorem outbuf_in_bounds (start : XOp) (hstart : start.isNew = true) (ops : List YOp) (h : OutHistory ops) :
+    ∃ o', yrunOps extractedTop {} (.x start :: ops) = .ok o' ∧
+      (o'.o.tb.bufLen = 0 → o'.o.tb.buf = []) ∧ (0 < o'.o.tb.bufLen → o'.o.tb.buf.length < o'.o.tb.bufLen) := by
+  obtain ⟨o', hr, I⟩ := out_no_ub_from_start start hstart ops h
+  exact ⟨o', hr, I.wf.1, I.wf.2⟩
+
+/-- `tickit_term_set_output_buffer`, whatever is pending: the new length is in force and nothing is pending
+    (`tt->outbuffer_cur = 0`) - the old buffer's content is not carried into a block it may not fit. -/
+theorem set_output_buffer_resets (tb : TermBuf.State) (n : Nat) :
+    (TermBuf.setOutputBuffer tb n).bufLen = n ∧ (TermBuf.setOutputBuffer tb n).buf = [] := ⟨rfl, rfl⟩
+
+/-- Why the fill level matters: with more pending than the buffer holds, the next `write_str` computes a wrapped-around
+    `space` and overruns the buffer (the model's explicit failure). -/
+theorem pending_beyond_buffer_overruns (fuel : Nat) (st : TermBuf.State) (str : List UInt8) (hs : str ≠ [])
+    (h : st.bufLen < st.buf.length) : ∃ why, TermBuf.writeLoop (fuel + 1) st str = .ub why := by
+  have : ¬ str.length = 0 := fun e => hs (List.length_eq_zero_iff.1 e)
+  unfold TermBuf.writeLoop
+  rw [if_neg this, if_pos h]
+  exact ⟨_, rfl⟩
+
+/-- **the xterm driver's `chpen` stays inside `params[]`** for every capability setting, every delta and every final pen,
+    with the array the source tree declares. -/
+theorem chpen_params_fit (caps : TermPen.Caps) (delta final : TermPen.Pen) :
+    ∃ bs, TermPen.xtermChpen caps Gen.Sgr.paramsCap delta final = .bytes bs := by
+  have hlen := Tickit.Proof.Sgr.length_flatten_comps caps delta
+  have hc := chpen_params_room
+  unfold TermPen.xtermChpen
+  simp only
+  rw [if_neg (by omega)]
+  split
+  · exact ⟨_, rfl⟩
+  · split <;> exact ⟨_, rfl⟩
+
+/-- The pen of `/verif/seeded`-style histories: both colours with RGB8 secondaries, a styled underline and the seven
+    single attributes need all 19 parameters on a terminal with both capabilities. -/
+def richPen : TermPen.Pen :=
+  { fg := some ⟨200, some ⟨200, 10, 20⟩⟩, bg := some ⟨100, some ⟨1, 2, 250⟩⟩, bold := some true, under := some 3, italic := some true,
+    reverse := some true, strike := some true, altfont := some 2, blink := some true, sizepos := some 2 }
+
+example : (TermPen.flatten (TermPen.comps ⟨true, true⟩ (TermPen.termDelta true xtermColors {} richPen))).length = 19 := by decide +kernel
+
+/-- **all_released with the output side**: after any history of this layer and `end` nothing is left (a buffer with
+    output pending is the terminal's: it goes with it). -/
+theorem out_all_released (start : XOp) (hstart : start.isNew = true) (ops : List YOp) (h : OutHistory ops) :
+    ∃ o', yrunOps extractedTop {} (.x start :: ops ++ [.x (.base .«end»)]) = .ok o' ∧ o'.top.anythingLeft = false ∧ o'.top.fail = none :=
+  yrun_end extractedTop_trepaired chpen_params_room start hstart ops h
+
+/-- Non-vacuity: a buffer of 64 bytes, 26 bytes printed into it, the buffer replaced by one of 8 bytes, printing on, the
+    capabilities reported, the 19-parameter pen set, the buffer removed, a window made and dropped in between. -/
+example : OutHistory [.tbuf 64, .tprint (List.replicate 26 0x61), .tbuf 8, .tprint (List.replicate 10 0x62), .tcaps true true false,
+    .x (.base (.win 0 ⟨0, 0, 2, 2⟩ 0)), .tsetpen true richPen, .tbuf 0, .x (.base (.act (.unref 1))), .tsetpen false {}, .tflush] := by
+  intro op hop; simp at hop
+  rcases hop with rfl | rfl | rfl | rfl | rfl | rfl | rfl | rfl | rfl | rfl | rfl <;>
+    first | trivial | (intro e; cases e) | exact .inl ⟨.inl rfl, rfl, fun _ _ _ _ h => by cases h⟩
+
+example : (match yrunOps extractedTop {} [.x (.base (.newTerm 6 12 false)), .tbuf 64, .tprint (List.replicate 26 0x61), .tbuf 8] with
+    | .ok o => (o.o.tb.bufLen, o.o.tb.buf.length) | _ => (99, 99)) = (8, 0) := by decide +kernel
+
+example : (yrunOps extractedTop {} [.x (.base (.newTerm 6 12 false)), .tbuf 64, .tprint (List.replicate 26 0x61), .tbuf 8,
+    .tprint (List.replicate 10 0x62), .tcaps true true false, .x (.base (.win 0 ⟨0, 0, 2, 2⟩ 0)), .tsetpen true richPen, .tbuf 0,
+    .x (.base (.act (.unref 1))), .tsetpen false {}, .tflush, .x (.base .«end»)]).isOk = true := by decide +kernel
 
 end Tickit.Props.C08
